@@ -72,10 +72,10 @@ COMPILE_FAULTS = [(n_, t_, (t_.rindex(m_) if m_ else 0), w_) for n_, t_, m_, w_ 
     ("unclosed-tag", "<%def name=\"a()\">\nfoo\n\n", "<%def", "line"),
     ("unclosed-nested-tag", "<%def name=\"a()\">\n <%call expr=\"b()\">\nfoo\n\n\n", "<%call", "line"),
     # a clause keyword that does not belong to the open block
-    ("else-inside-with", "\n% with a as b:\n% else:\nx\n% endwith\n", "% else", "line"),
-    ("finally-inside-if", "\n% if a:\n% finally:\nx\n% endif\n", "% finally", "line"),
-    ("except-inside-for", "\n% for a in b:\n% except E:\nx\n% endfor\n", "% except", "line"),
-    ("elif-inside-while", "\n% while a:\n% elif b:\nx\n% endwhile\n", "% elif", "line"),
+    ("else-inside-with", "\n% with a as b:\n% else:\nx\n% endwith\n", "% else", "linecol"),
+    ("finally-inside-if", "\n% if a:\n% finally:\nx\n% endif\n", "% finally", "linecol"),
+    ("except-inside-for", "\n% for a in b:\n% except E:\nx\n% endfor\n", "% except", "linecol"),
+    ("elif-inside-while", "\n% while a:\n% elif b:\nx\n% endwhile\n", "% elif", "linecol"),
     ("namespace-call-without-def-name", "<%a:/>", None, "linecol"),
 ]]
 
@@ -225,7 +225,9 @@ def on_struct(fault):
         acc.tags["asserted"] += 1
         if e is None:
             acc.vcs += 1
-            acc.candidate(kind="no-exception", input=dict(template=w, fault=name), detail="faulty construct accepted")
+            # (the replay checks the position too: the real compilation goes further than the instrumented one, and may
+            # report the fault from a later stage)
+            acc.candidate(kind="no-exception", input=dict(template=w, fault=name, offset=n + off, what=what), detail="faulty construct accepted")
             return
         if isinstance(e, Foreign):
             acc.vcs += 1
@@ -464,7 +466,7 @@ elif KIND in ("wrong-position", "no-exception", "wrong-filename-or-source"):
     r0 = results[0][1]
     if r0 is None: bad = "faulty template compiled without error"
     elif isinstance(r0, str): bad = "raised " + r0
-    elif "offset" in CASE:
+    elif "offset" in CASE and CASE.get("what") != "any":
         line, col = expected_linecol(CASE["offset"])
         if r0[0] != line or (CASE["what"] == "linecol" and r0[1] != col): bad = "reported (%%s,%%s), construct begins at (%%s,%%s)" %% (r0[0], r0[1], line, col)
     if not bad and r0 and not isinstance(r0, str) and (r0[2] != "/templates/page.html" or not r0[3]): bad = "filename/source not carried"
